@@ -581,8 +581,9 @@ def check_warn_ragged_csv(ctx, case):
     b_txt = None
     if case.get('b_lengths') is not None:
         b_txt = render_csv([['d%d' % j for j in range(n)] for n in case['b_lengths']], case['delim'], policy, None, set(case['comments'])).encode('utf-8')
-    e, ws, out = ctx.run_csv(case['query'], txt.encode('utf-8'), b_txt, case['delim'], policy, case['delim'], 'quoted_rfc' if policy == 'quoted_rfc' else 'quoted',
-                             'utf-8', False, '#')
+    # override: the caller says "with headers", the query says WITH (noheader): every line is a record, and is counted as one (C09 / C14)
+    e, ws, out = ctx.run_csv(case['query'] + (' with (noheader)' if case.get('override') else ''), txt.encode('utf-8'), b_txt, case['delim'], policy, case['delim'],
+                             'quoted_rfc' if policy == 'quoted_rfc' else 'quoted', 'utf-8', bool(case.get('override')), '#')
     exp_cats, exp_cites = [], []
     for lengths in (case['lengths'], case.get('b_lengths') or []):
         if len(set(lengths)) > 1:
@@ -613,6 +614,9 @@ def gen_warn_ragged_csv_cases(tier, rnd):
                         for q in sorted({CSV_SCAN_QUERIES[0], CSV_SCAN_QUERIES[qi]} if tier != 'quick' else {CSV_SCAN_QUERIES[qi]}):
                             yield {'replay': 'c14', 'kind': 'warn_ragged_csv', 'query': q, 'lengths': list(lengths), 'comments': comments, 'multiline': ml,
                                    'policy': policy, 'delim': delim, 'key': 'warn:csv:fieldcount:%s:%s' % (policy, 'ml' if ml else ('cm' if comments else 'plain'))}
+                            if not ml and len(comments) in (0, 1) and policy != 'quoted':
+                                yield {'replay': 'c14', 'kind': 'warn_ragged_csv', 'query': q, 'lengths': list(lengths), 'comments': comments, 'multiline': ml, 'override': True,
+                                       'policy': policy, 'delim': delim, 'key': 'warn:csv:fieldcount:%s:%s:noheader-overrides-flag' % (policy, 'cm' if comments else 'plain')}
     # ragged join file with comment lines
     for al in itertools.product((2, 3), repeat=2):
         for bl in itertools.product((1, 2, 3), repeat=3):
